@@ -543,6 +543,13 @@ fn parent_main<H: Harness>(h: H, a: Args, plan: crate::Plan) -> i32 {
             println!("VIOLATION property={} replay={}", id, path.display());
             println!("  site={} cases={} : {}", site, st.count, st.first.what);
             unknown.push((site.clone(), path));
+        } else if st.first.nondet {
+            // a determinism clause: the in-execution observation (same call twice, different results)
+            // is the evidence; replays need not draw the same results again
+            let k = [&r1, &r2].iter().filter(|r| has_site(r)).count();
+            println!("VIOLATION property={} replay={}", id, path.display());
+            println!("  site={} cases={} : {} [nondeterminism observed inside {} execution(s); {} of 2 replays showed it again]", site, st.count, st.first.what, st.count, k);
+            unknown.push((site.clone(), path));
         } else {
             machinery.push(format!("violation at site {} did not replay deterministically: {:?} vs {:?}", site, r1, r2));
         }
